@@ -33,10 +33,13 @@ _SCHEME = re.compile(r'^[A-Za-z][A-Za-z0-9+.\-]*:')
 
 
 class Ref:
-    __slots__ = ('tag', 'attr', 'url', 'ctx', 'line')
+    """One URL-valued attribute. `text` is the character data inside the element
+    (collected for <a> only; '' for void elements)."""
+    __slots__ = ('tag', 'attr', 'url', 'ctx', 'line', 'text')
 
     def __init__(self, tag, attr, url, ctx, line):
         self.tag, self.attr, self.url, self.ctx, self.line = tag, attr, url, ctx, line
+        self.text = ''
 
     def __repr__(self):
         return '<%s %s=%r line %d in %s>' % (self.tag, self.attr, self.url, self.line, '>'.join(self.ctx[-3:]))
@@ -60,10 +63,15 @@ class Page(HTMLParser):
         self.refs = []
         self.anchors = []
         self._stack = []
+        self._open_a = []       # (depth of the <a> in the stack, Ref)
 
     # -- parser callbacks ---------------------------------------------------
     def handle_starttag(self, tag, attrs):
+        n = len(self.refs)
         self._element(tag, attrs)
+        if tag == 'a':
+            for ref in self.refs[n:]:
+                self._open_a.append((len(self._stack), ref))
         if tag not in VOID:
             a = dict(attrs)
             cls = (a.get('class') or '').strip()
@@ -76,7 +84,13 @@ class Page(HTMLParser):
         for i in range(len(self._stack) - 1, -1, -1):
             if self._stack[i][0] == tag:
                 del self._stack[i:]
+                while self._open_a and self._open_a[-1][0] >= i:
+                    self._open_a.pop()
                 break
+
+    def handle_data(self, data):
+        for _, ref in self._open_a:
+            ref.text += data
 
     def _element(self, tag, attrs):
         ctx = tuple(s[1] for s in self._stack)
